@@ -1,6 +1,6 @@
 /-
   The stream invariant of Proofs/Reader with `wsutil.ControlFrameHandler` installed as OnIntermediate (the
-  documented set-up of a wsutil.Reader): interleaved pings (1..125 bytes) are answered with exactly one pong
+  documented set-up of a wsutil.Reader): interleaved pings (0..125 bytes) are answered with exactly one pong
   carrying the identical payload, interleaved pongs with nothing; the data delivered is as without a handler.
   What the handler does to the destination is threaded through the invariant as a RELATION (`Handled`), because
   the handler's exact environment depends on how the control payload happened to be chunked while its wire
@@ -17,11 +17,12 @@ abbrev pongH (client : Bool) (errText : ProtoErr → Bytes) : Callback := contro
 
 /-- the pong that answers ping `f` under the drawn mask `m` -/
 def pongWire (client : Bool) (f : WFrame) (m : Mask) : Bytes :=
-  rfcEncode (wireHeader client ⟨true, 0, opPong, false, Mask.zero, f.h.len⟩ m) ++ wirePayload client f.plain m
+  if f.h.len = 0 then frameHeaderOnly client opPong   -- a bare header (the client's carries the all-zero key)
+  else rfcEncode (wireHeader client ⟨true, 0, opPong, false, Mask.zero, f.h.len⟩ m) ++ wirePayload client f.plain m
 
-/-- an interleaved control frame this development covers: a ping with 1..125 bytes, or any pong -/
+/-- an interleaved control frame this development covers: a ping (0..125 bytes), or any pong -/
 def GoodCtl (f : WFrame) : Prop :=
-  (f.h.op = opPing ∧ 0 < f.h.len ∧ f.h.len ≤ 125) ∨ f.h.op = opPong
+  (f.h.op = opPing ∧ f.h.len ≤ 125) ∨ f.h.op = opPong
 
 /-- what handling the control frame `f` does to the context -/
 def Reply (client : Bool) (f : WFrame) (cx cx' : Ctx) : Prop :=
@@ -61,9 +62,33 @@ theorem nextFrame_ctl_h (client : Bool) (errText : ProtoErr → Bytes) (r : Rd) 
     (adv ({ r with ext := false, rawN := f.h.len, masked := f.h.masked, mask := f.h.mask, cpos := 0, utf8on := false } : Rd) f.wire.length)
     s2 [] tail (by simpa using hb2) (by simp [adv, hok.len]) ht2 (by unfold Src.fuel mu; omega)
   have hfinal : (adv ({ r with ext := false, rawN := f.h.len, masked := f.h.masked, mask := f.h.mask, cpos := 0, utf8on := false } : Rd) f.wire.length : Rd) = adv ({ r with ext := false, rawN := f.h.len, masked := f.h.masked, mask := f.h.mask, cpos := 0, utf8on := false } : Rd) f.wire.length := rfl
-  rcases hgood with ⟨hping, hl0, hl125⟩ | hpong
-  · -- a ping with payload: read through the frame, answered with one pong
-    have hne : f.h.len ≠ 0 := by omega
+  rcases hgood with ⟨hping, hl125⟩ | hpong
+  · by_cases hz : f.h.len = 0
+    · -- an empty ping: nothing to read, a bare pong header in reply
+      have hw0 : f.wire = [] := List.length_eq_zero_iff.mp (by rw [hok.len]; exact hz)
+      have hwr := dst_write_ok cx.env.dst (frameHeaderOnly client opPong) he.no_fail
+      obtain ⟨e1, he1⟩ : ∃ e1 : Env, e1 = ⟨(cx.env.dst.write (frameHeaderOnly client opPong)).2, cx.env.masks⟩ := ⟨_, rfl⟩
+      obtain ⟨cx1, hcx1⟩ : ∃ cx1 : Ctx, cx1 = ⟨e1, cx.msgs, cx.events ++ [(f.h.op, [])]⟩ := ⟨_, rfl⟩
+      have hh2 : handleControl client f.h { chunks := [] } false cx.env errText = some (none, e1) := by
+        unfold handleControl handlePing
+        rw [if_pos hping, if_pos hz, he1]
+        simp [hwr]
+      have hres : controlFrameHandler client errText false none f.h ({ r with ext := false, rawN := f.h.len, masked := f.h.masked, mask := f.h.mask, cpos := 0, utf8on := false } : Rd) s1 cx = ⟨none, ({ r with ext := false, rawN := f.h.len, masked := f.h.masked, mask := f.h.mask, cpos := 0, utf8on := false } : Rd), s1, cx1⟩ := by
+        unfold controlFrameHandler
+        simp only [hz, ne_eq, not_true_eq_false, false_and, not_false_eq_true, if_true, hh2]
+        rw [hcx1]; simp
+      obtain ⟨s4, hd4, hb4, ht4, hmu4, _⟩ := drainRaw_ok s1.fuel ({ r with ext := false, rawN := f.h.len, masked := f.h.masked, mask := f.h.mask, cpos := 0, utf8on := false } : Rd)
+        s1 [] tail (by rw [hb, hw0]) (by simp [hz]) htame (by unfold Src.fuel mu; omega)
+      refine ⟨s4, cx1, ?_, hb4, ht4, by omega, ⟨?_, ?_⟩, by rw [hcx1], Or.inl ⟨hping, ?_⟩⟩
+      · simp only [hres, hd4]
+        simp only [afterCtl, hext, hw0, List.length_nil]
+        cases hm : f.h.masked <;> simp [hz]
+      · rw [hcx1, he1]; exact he.masks_wf
+      · rw [hcx1, he1]; simp [hwr]; exact he.no_fail
+      · rw [hcx1, he1]; simp [pongWire, hz, hwr]
+    -- a ping with payload: read through the frame, answered with one pong
+    have hl0 : 0 < f.h.len := Nat.pos_of_ne_zero hz
+    have hne : f.h.len ≠ 0 := hz
     obtain ⟨e', hh1, he', hw'⟩ := ping_reply_ok client f.h { chunks := chunks, fin := .eof, ueofEnd := false } cx.env he ⟨hl0, hl125⟩
       (by simp [CtlSrc.bytes, hfl, hplen]) (by
         simp only [CtlSrc.bytes, hfl]
@@ -83,7 +108,7 @@ theorem nextFrame_ctl_h (client : Bool) (errText : ProtoErr → Bytes) (r : Rd) 
     · simp only [hres, hd]
       simp only [afterCtl, adv, hext]
       cases hm : f.h.masked <;> simp [hok.len]
-    · simp only [hw', pongWire, CtlSrc.bytes, hfl]
+    · simp only [hw', pongWire, if_neg hz, CtlSrc.bytes, hfl]
   · -- a pong: read to its end, nothing written
     have h1 : ¬ f.h.op = opPing := by rw [hpong]; decide
     by_cases hz : f.h.len = 0
